@@ -1547,7 +1547,10 @@ class Var(SymbolNode):
             "setter_type": None if self.setter_type is None else self.setter_type.serialize(),
             "flags": get_flags(self, VAR_FLAGS),
         }
-        if self.final_value is not None:
+        if isinstance(self.final_value, complex):
+            # JSON has no complex numbers
+            data["final_value"] = {"complex": [self.final_value.real, self.final_value.imag]}
+        elif self.final_value is not None:
             data["final_value"] = self.final_value
         return data
 
@@ -1571,7 +1574,10 @@ class Var(SymbolNode):
         v.is_ready = False  # Override True default set in __init__
         v._fullname = data["fullname"]
         set_flags(v, data["flags"])
-        v.final_value = data.get("final_value")
+        final_value = data.get("final_value")
+        if isinstance(final_value, dict):
+            final_value = complex(*final_value["complex"])
+        v.final_value = final_value
         return v
 
     def write(self, data: WriteBuffer) -> None:
